@@ -30,6 +30,8 @@ STAGES = {
         'quick': [
             ('send-2x2-b2-render', 'Session', cfg(RENDERKINDS='{"failMid"}', CAPSETS='{%s}' % ALLCAPS,
                                                    CLASSES='{"t4", "p5", "drop", "x3"}')),
+            ('send-2x2-b1-transport', 'Session', cfg(BUDGET='1', CAPSETS='{{}}', CLASSES='{"wfail", "cwfail", "drop"}')),
+            ('send-2x1-b2-transport', 'Session', cfg(MAXR='1', BUDGET='2', CAPSETS='{{}}', CLASSES='{"wfail", "cwfail", "p5"}')),
             ('send-2x1-b1-allrender', 'Session', cfg(MAXR='1', BUDGET='1', CAPSETS='{{}}',
                                                       RENDERKINDS='{"fail0", "failMid", "failEOF", "failAtt", "failAttEOF"}')),
             ('dialandsend-2x1-b1', 'Session', cfg(OP='"DialAndSend"', MAXR='1', BUDGET='1', RENDERKINDS='{"failMid"}',
@@ -74,7 +76,8 @@ STAGES = {
                                                 CLASSES='{"t4", "p5", "drop", "mal"}', POLICIES='{"mandatory"}', STARTTLSADV='{TRUE}',
                                                 AUTHTYPES='{"PLAIN", "LOGIN", "SCRAM-SHA-256-PLUS", "AUTODISCOVER"}',
                                                 AUTHLISTS='{{"PLAIN", "LOGIN"}, {"SCRAM-SHA-256-PLUS", "SCRAM-SHA-1", "PLAIN"}}')),
-            ('dialandsend-1x2-b2', 'Session', cfg(OP='"DialAndSend"', N='1', BUDGET='2', CAPSETS='{{}}', RENDERKINDS='{"failMid"}')),
+            ('dialandsend-1x2-b2', 'Session', cfg(OP='"DialAndSend"', N='1', BUDGET='2', CAPSETS='{{}}', RENDERKINDS='{"failMid"}',
+                                                  CLASSES='{"t4", "p5", "drop", "wfail", "cwfail"}')),
             ('dialandsend-2x1-b2', 'Session', cfg(OP='"DialAndSend"', N='2', MAXR='1', BUDGET='2', CAPSETS='{{}}')),
         ],
         'thorough': [
@@ -121,7 +124,10 @@ STAGES = {
     },
     'C16': {
         'quick': [
-            ('dial-auth-clear-b1', 'Session', cfg(OP='"Dial"', N='1', MAXR='1', BUDGET='1', CAPSETS='{{}}', CLASSES='{"p5", "drop", "mal"}',
+            ('rawauth-b1', 'Session', cfg(OP='"RawAuth"', N='1', MAXR='1', BUDGET='1', CAPSETS='{{}}', CLASSES='{"p5", "mal", "wfail"}',
+                                          AUTHTYPES='{"PLAIN-NOENC", "LOGIN-NOENC", "CRAM-MD5", "XOAUTH2", "SCRAM-SHA-256"}',
+                                          AUTHLISTS='{{"PLAIN", "LOGIN", "CRAM-MD5", "XOAUTH2", "SCRAM-SHA-1", "SCRAM-SHA-256", "SCRAM-SHA-1-PLUS", "SCRAM-SHA-256-PLUS"}}', LOGAUTH='BOOLEAN', LOGGERS='{"capture", "std", "json"}')),
+            ('dial-auth-clear-b1', 'Session', cfg(OP='"Dial"', N='1', MAXR='1', BUDGET='1', CAPSETS='{{}}', CLASSES='{"p5", "drop", "mal", "wfail"}',
                                                   AUTHTYPES='{"PLAIN-NOENC", "LOGIN-NOENC", "CRAM-MD5", "XOAUTH2", "SCRAM-SHA-1", "SCRAM-SHA-256", "AUTODISCOVER"}',
                                                   AUTHLISTS='{{"PLAIN", "LOGIN", "CRAM-MD5", "XOAUTH2", "SCRAM-SHA-1", "SCRAM-SHA-256", "SCRAM-SHA-1-PLUS", "SCRAM-SHA-256-PLUS"}}', LOGAUTH='BOOLEAN', LOGGERS='{"capture", "std", "json"}')),
             ('dial-auth-tls-b1', 'Session', cfg(OP='"Dial"', N='1', MAXR='1', BUDGET='1', CAPSETS='{{}}', CLASSES='{"p5", "mal"}',
@@ -133,7 +139,10 @@ STAGES = {
                                                   AUTHLISTS='{{"PLAIN", "LOGIN", "CRAM-MD5", "XOAUTH2", "SCRAM-SHA-1", "SCRAM-SHA-256", "SCRAM-SHA-1-PLUS", "SCRAM-SHA-256-PLUS"}}', LOGAUTH='BOOLEAN', LOGGERS='{"capture", "std", "json"}')),
         ],
         'thorough': [
-            ('dial-auth-clear-b2', 'Session', cfg(OP='"Dial"', N='1', MAXR='1', BUDGET='2', CAPSETS='{{}}', CLASSES='{"t4", "p5", "drop", "mal"}',
+            ('rawauth-b2', 'Session', cfg(OP='"RawAuth"', N='1', MAXR='1', BUDGET='2', CAPSETS='{{}}', CLASSES='{"t4", "p5", "drop", "mal", "wfail"}',
+                                          AUTHTYPES='{"PLAIN-NOENC", "LOGIN-NOENC", "CRAM-MD5", "XOAUTH2", "SCRAM-SHA-1", "SCRAM-SHA-256"}',
+                                          AUTHLISTS='{{"PLAIN", "LOGIN", "CRAM-MD5", "XOAUTH2", "SCRAM-SHA-1", "SCRAM-SHA-256", "SCRAM-SHA-1-PLUS", "SCRAM-SHA-256-PLUS"}}', LOGAUTH='BOOLEAN', LOGGERS='{"capture", "std", "json"}')),
+            ('dial-auth-clear-b2', 'Session', cfg(OP='"Dial"', N='1', MAXR='1', BUDGET='2', CAPSETS='{{}}', CLASSES='{"t4", "p5", "drop", "mal", "wfail"}',
                                                   AUTHTYPES='{"PLAIN-NOENC", "LOGIN-NOENC", "CRAM-MD5", "XOAUTH2", "SCRAM-SHA-1", "SCRAM-SHA-256", "AUTODISCOVER"}',
                                                   AUTHLISTS='{{"PLAIN", "LOGIN", "CRAM-MD5", "XOAUTH2", "SCRAM-SHA-1", "SCRAM-SHA-256", "SCRAM-SHA-1-PLUS", "SCRAM-SHA-256-PLUS"}}', LOGAUTH='BOOLEAN', LOGGERS='{"capture", "std", "json"}')),
             ('dial-auth-tls-b2', 'Session', cfg(OP='"Dial"', N='1', MAXR='1', BUDGET='2', CAPSETS='{{}}', CLASSES='{"t4", "p5", "drop", "mal"}',
